@@ -77,11 +77,12 @@ struct Rec {
     prims.append(buf, n);
     --internal;
   }
-  void alloc(const char *kind, const void *p1, const void *p2, long n1, long n2, long live) {
+  // tag: identifies the allocator TYPE the event comes from (a block goes back to the type it came from)
+  void alloc(const char *kind, const void *p1, const void *p2, long n1, long n2, long live, int tag = 0) {
     ++internal;
-    char buf[128];
-    int n = snprintf(buf, sizeof buf, "%s[\"%s\",%d,%d,%ld,%ld,%ld]", allocs.empty() ? "" : ",", kind, token(p1),
-                     token(p2), n1, n2, live);
+    char buf[160];
+    int n = snprintf(buf, sizeof buf, "%s[\"%s\",%d,%d,%ld,%ld,%ld,%d]", allocs.empty() ? "" : ",", kind, token(p1),
+                     token(p2), n1, n2, live, tag);
     allocs.append(buf, n);
     --internal;
   }
@@ -291,11 +292,11 @@ struct StdLike {  // standard allocator without reallocate (Tag: distinct alloca
   T *allocate(size_t n) {
     R.maybeThrowAlloc();
     T *p = static_cast<T *>(std::malloc(n * sizeof(T) ? n * sizeof(T) : 1));
-    R.alloc("alloc", p, nullptr, static_cast<long>(n * sizeof(T)), 0, -1);
+    R.alloc("alloc", p, nullptr, static_cast<long>(n * sizeof(T)), 0, -1, Tag);
     return p;
   }
   void deallocate(T *p, size_t n) {
-    R.alloc("dealloc", p, nullptr, static_cast<long>(n * sizeof(T)), 0, -1);
+    R.alloc("dealloc", p, nullptr, static_cast<long>(n * sizeof(T)), 0, -1, Tag);
     if (p) std::memset(static_cast<void *>(p), 0xDD, n * sizeof(T));
     std::free(p);
   }
@@ -371,7 +372,8 @@ struct InputIt {  // single pass: all copies share the position; a second pass o
     return t;
   }
   friend bool operator==(const InputIt &a, const InputIt &b) {
-    size_t pa = a.isEnd ? a.sh->n : a.my, pb = b.isEnd ? b.sh->n : b.my;
+    // (a copy that was advanced past the end by a misuse of the single pass range compares equal to the end)
+    size_t pa = a.isEnd || a.my > a.sh->n ? a.sh->n : a.my, pb = b.isEnd || b.my > b.sh->n ? b.sh->n : b.my;
     return pa == pb;
   }
   friend bool operator!=(const InputIt &a, const InputIt &b) { return !(a == b); }
